@@ -1,21 +1,563 @@
-"""C15 — terminal emulator: grid-shape invariant contracts on the cursor arithmetic of urwid/vterm.py.
-(The grid itself — a list of rows of cells — and the byte parser are decided by the bounded check.)"""
+"""C15 — terminal emulator: the grid operations of urwid/vterm.py:TermCanvas under the class invariant GI
+(DESIGN §6 C15) and, per operation, the content postcondition a VT100 has for it.
+
+Grid model: `term` is a list of rows, a row a list of cells, a cell an opaque triple (attribute, charset name,
+character bytes).  Rows are held BY VALUE (pyvc/seqs.py: fresh_seq / RowRef): the model has no aliasing between
+rows, which is how the real code treats them (every row is built fresh by empty_line() / a slice / a concatenation
+and *moved* between `term` and the scroll-back, never shared); a use the model cannot follow is `Unsupported`.
+The scroll-back `collections.deque(maxlen=10000)` is the ADT model SDeque below (assumed; cross-checked against the
+real deque on every run by a static check).  The byte parser is decided by the bounded check."""
+import collections
+
+import z3
+
+from pyvc import seqs as Q
 from pyvc.api import *
-from pyvc.values import cur
+from pyvc.api import PROTOCOLS
+from pyvc.engine import PyRaise, SExc
+from pyvc.protocol import PMethod, Protocol
+from pyvc.seqs import ModelObj
+from pyvc.shapes import opaque_sort
+from pyvc.values import SOpaque, SOpt, _zb, cur
 from urwid import vterm as _vt
 
 VT = "urwid/vterm.py:"
 MODES = Obj(_vt.TermModes, dict(constrain_scrolling=Bool, visible_cursor=Bool, autowrap=Bool, insert=Bool, lfnl=Bool))
+CHARSET = Obj(_vt.TermCharset, dict(current=Opaque("CsName"), _sgr_mapping=Bool, active=Int, _g=Opaque("CsTable")))
+CELL = Tup(Opaque("Attr"), Opaque("CsName"), Opaque("Bytes", lit=(bytes,)))
+ROW = ListOf(CELL)
+GRID = ListOf(ROW)
+SCROLLBACK_MAX = 10000
+
+
+# ---- collections.deque(maxlen=N) holding rows: dual-use transition functions + the symbolic ADT
+
+def dq_append(content, maxlen, v):
+    """deque.append with maxlen: when full the leftmost element is discarded."""
+    n = Q.seq_len(content)
+    return Q.seq_concat(Q.seq_slice1(content, ite(n >= maxlen, 1, 0), n), (v,))
+
+
+def dq_pop(content):
+    """deque.pop() on a non-empty deque: (rightmost element, the rest)."""
+    n = Q.seq_len(content)
+    return Q.seq_get(content, n - 1), Q.seq_slice1(content, 0, n - 1)
+
+
+class SDeque(ModelObj):
+    """`collections.deque(maxlen=maxlen)` of rows (rows by value, as in the grid)."""
+
+    def __init__(self, st, hint, maxlen=SCROLLBACK_MAX):
+        self.maxlen = maxlen
+        self.seq = ListOf(ROW, max_len=maxlen).fresh_seq(st, hint)
+
+    def py_truth(self, st):
+        return Q.seq_len(self.seq) > 0
+
+    def py_len(self, st):
+        return Q.seq_len(self.seq)
+
+    def py_call(self, ip, st, name, args, kwargs):
+        if name == "append" and len(args) == 1:
+            self.seq = dq_append(self.seq, self.maxlen, Q.row_value(args[0]))
+            return None
+        if name == "pop" and not args:
+            n = Q.seq_len(self.seq)
+            if st.branch(n == 0):
+                raise PyRaise(SExc(IndexError, ("pop from an empty deque",), site="builtin"))
+            v, self.seq = dq_pop(self.seq)
+            return Q.LRef(v)  # a detached list: rows are never shared
+        raise Unsupported(f"deque.{name}")
+
+
+def _xcheck_deque():
+    """The transition functions above against the real collections.deque, exhaustively over a small scope."""
+    import itertools
+
+    n = 0
+    for maxlen in (1, 2, 3):
+        for ops in itertools.product(("a", "p"), repeat=5):
+            real, model, k = collections.deque(maxlen=maxlen), (), 0
+            for op in ops:
+                if op == "a":
+                    k += 1
+                    real.append(k)
+                    model = tuple(dq_append(model, maxlen, k))
+                elif real:
+                    v, model = dq_pop(model)
+                    model = tuple(model)
+                    if v != real.pop():
+                        return "deque-model-vs-cpython", False, f"pop differs after {ops}"
+                if tuple(real) != model:
+                    return "deque-model-vs-cpython", False, f"content differs after {ops} maxlen={maxlen}: {tuple(real)} vs {model}"
+                n += 1
+    return "deque-model-vs-cpython", True, f"{n} steps compared"
+
+
+class TermWidgetProtocol(Protocol):
+    """The Terminal widget as seen from its canvas: `respond(string)` queues a reply for the hosted program
+    (logged in the ghost trace; it has no effect on the canvas)."""
+
+    kind = "TermWidget"
+    methods = {"respond": PMethod(None, params=["string"])}
+
+    def call(self, ip, st, recv, name, args, kwargs):
+        if name != "respond" or len(args) != 1 or kwargs:
+            raise Unsupported(f"Terminal.{name}")
+        st.event("call", recv, name, {"string": args[0]}, None)
+        return None
+
+
+PROTOCOLS["TermWidget"] = TermWidgetProtocol()
+
 TERM = Obj(_vt.TermCanvas, dict(
     width=Int, height=Int, scrollregion_start=Int, scrollregion_end=Int, term_cursor=Tup(Int, Int), modes=MODES,
-    is_rotten_cursor=Bool, has_focus=Bool, scrolling_up=Int, cursor=Opt(Tup(Int, Int))))
+    is_rotten_cursor=Bool, has_focus=Bool, scrolling_up=Int, cursor=Opt(Tup(Int, Int)),
+    term=GRID, scrollback_buffer=Custom(lambda st, hint: SDeque(st, hint), "deque(maxlen=10000) of rows"),
+    attrspec=Opaque("Attr"), charset=CHARSET, saved_cursor=Opt(Tup(Int, Int)), tabstops=ListOf(Int(0, 255)),
+    widget=Opaque("TermWidget")))
+FIELDS = tuple(TERM.fields)
+HELPERS = ("TermCanvas.empty_char", "TermCanvas.empty_line")  # 1-line constructors of a blank cell / a fresh blank row
+
+
+
+
+# =================================================================================================
+# spec vocabulary: grid values, and the reference model of the terminal as pure state transformers
+# (`M_xxx(s, ...) -> s'`).  A contract proves that the real method leaves every field equal to the
+# model's value (clauses `<field>-is-the-model-value`, `frame`) and, separately, the clause-style
+# postconditions read off the statement.  At a call site the caller sees the callee's effect *as* the
+# model value (a quantifier-free term over the old state) instead of a havoc plus quantified facts.
+
+
+class StV:
+    """A state value: `base` with some fields replaced (attribute access like the symbolic object)."""
+
+    def __init__(self, base, **ch):
+        self.__dict__["_b"], self.__dict__["_c"] = base, ch
+
+    def __getattr__(self, k):
+        c = self.__dict__["_c"]
+        return c[k] if k in c else getattr(self.__dict__["_b"], k)
+
+
+def upd(s, **ch):
+    return StV(s, **ch)
+
+
+class SB:
+    """Scroll-back content as a value."""
+
+    def __init__(self, seq):
+        self.seq = seq
+
+
+def rows_of(t):
+    return t.seq if isinstance(t, Q.LRef) else t
+
+
+def row(s, r):
+    return Q.seq_get(rows_of(s.term), r)
+
+
+def cell(t, r, x):
+    """Cell x of row r of a grid value."""
+    return Q.seq_get(Q.seq_get(rows_of(t), r), x)
+
+
+def cell_eq(a, b):
+    return both(eq(a[0], b[0]), eq(a[1], b[1]), eq(a[2], b[2]))
+
+
+def blank(s, ch=b" "):
+    """The cell the terminal writes when it erases: current attribute and charset, a space."""
+    return (s.attrspec, s.charset.current, ch)
+
+
+def mkrows(n, f):
+    return Q.SSeq(n, f, ROW, None, "rows")
+
+
+def mkrow(w, f):
+    return Q.SSeq(w, f, CELL, None, "row")
+
+
+def mkgrid(s, f):
+    """The height x width grid whose cell (r, x) is f(r, x)."""
+    return mkrows(s.height, lambda r: mkrow(s.width, lambda x: f(r, x)))
+
+
+def blankrow(s, ch=b" "):
+    return mkrow(s.width, lambda x: blank(s, ch))
+
+
+def row_len(t, r):
+    return Q.seq_len(Q.seq_get(rows_of(t), r))
+
+
+def same_row(t1, r1, t2, r2, w):
+    """Row r1 of t1 has the cells of row r2 of t2 (both of width w)."""
+    return forall(0, w, lambda x: cell_eq(cell(t1, r1, x), cell(t2, r2, x)))
+
+
+def seq_rows_eq(a, b):
+    """Two sequences of rows are equal: same number of rows, each of the same length with the same cells."""
+    a, b = rows_of(a), rows_of(b)
+    if a is b:
+        return True
+    n = Q.seq_len(a)
+    return both(n == Q.seq_len(b), forall(0, n, lambda r: both(row_len(a, r) == row_len(b, r), forall(0, row_len(a, r), lambda x: cell_eq(cell(a, r, x), cell(b, r, x))))))
+
+
+def row_eq_seq(rw, t2, r2):
+    """A row value equals row r2 of t2 (length and cells)."""
+    other = Q.seq_get(rows_of(t2), r2)
+    n = Q.seq_len(rw)
+    return both(n == Q.seq_len(other), forall(0, n, lambda x: cell_eq(Q.seq_get(rw, x), Q.seq_get(other, x))))
+
+
+def blank_row(t, r, s, w, ch=b" "):
+    return forall(0, w, lambda x: cell_eq(cell(t, r, x), blank(s, ch)))
+
+
+def rows_same(old, s, lo, hi, shift=0):
+    """Rows lo..hi-1 of the new grid are rows lo+shift.. of the old one."""
+    return forall(lo, hi, lambda r: same_row(s.term, r, old.term, r + shift, old.width))
+
+
+def grid_shape(s):
+    return both(Q.seq_len(rows_of(s.term)) == s.height, forall(0, s.height, lambda r: row_len(s.term, r) == s.width))
 
 
 def GI(s):
-    """Grid invariant (cursor part): positive size, scrolling region and cursor inside the grid."""
+    """Grid invariant: positive size; `term` is height rows of width cells; scrolling region and cursor inside
+    the grid; the view offset inside the scroll-back; a tab-stop byte for every column."""
     x, y = s.term_cursor
     return both(s.width >= 1, s.height >= 1, 0 <= s.scrollregion_start, s.scrollregion_start <= s.scrollregion_end,
-                s.scrollregion_end <= s.height - 1, 0 <= x, x < s.width, 0 <= y, y < s.height, s.scrolling_up >= 0)
+                s.scrollregion_end <= s.height - 1, 0 <= x, x < s.width, 0 <= y, y < s.height, s.scrolling_up >= 0,
+                s.scrolling_up <= Q.seq_len(s.scrollback_buffer.seq), Q.seq_len(rows_of(s.tabstops)) * 8 >= s.width,
+                grid_shape(s))
+
+
+KIND = dict(term="rows", scrollback_buffer="deque", tabstops="ints", charset="obj", modes="obj")
+
+
+def same_value(k, a, b):
+    """Field k: value a (of the symbolic object) equals value b (object field or model value)."""
+    kind = KIND.get(k)
+    if kind == "rows":
+        return seq_rows_eq(a, b)
+    if kind == "deque":
+        return seq_rows_eq(a.seq, b.seq)
+    if kind == "ints":
+        a, b = rows_of(a), rows_of(b)
+        if a is b:
+            return True
+        n = Q.seq_len(a)
+        return both(n == Q.seq_len(b), forall(0, n, lambda j: Q.seq_get(a, j) == Q.seq_get(b, j)))
+    if kind == "obj":
+        return both(*[same_value(f, a.fields[f], getattr(b, f)) for f in a.fields])
+    if isinstance(a, tuple) and isinstance(b, tuple):
+        return both(*[eq(x, y) for x, y in zip(a, b)])
+    return opt_eq(a, b)
+
+
+def frame(old, s, *modified):
+    """Every modelled field of the canvas outside `modified` is as it was."""
+    return both(*[same_value(k, s.fields[k], getattr(old, k)) for k in FIELDS if k not in modified])
+
+
+def materialize(k, oldval, v):
+    """The object-side value of field k holding the model value v."""
+    kind = KIND.get(k)
+    if kind in ("rows", "ints"):
+        return v if isinstance(v, Q.LRef) else Q.LRef(v)
+    if kind == "deque":
+        if isinstance(v, SDeque):
+            return v
+        import copy
+
+        d = copy.copy(oldval)
+        d.seq = v.seq
+        return d
+    if kind == "obj":
+        if isinstance(v, Q.SObj):
+            return v
+        o = oldval.snapshot()
+        for f in o.fields:
+            o.fields[f] = getattr(v, f)
+        return o
+    return v
+
+
+def modelled(cls):
+    """Class decorator (below @contract): the contract is `model(old, a) -> s'` over the fields in `modifies`.
+    Body side: each modified field equals the model value, every other field is unchanged, the invariant holds,
+    plus the statement clauses of `clauses(old, s, a, result)`.  Callee side: the fields are *set* to the model
+    values (no quantified facts are assumed; the invariant is re-derivable from the values)."""
+    model, clauses, mods = cls.model, cls.__dict__.get("clauses"), cls.modifies
+
+    def ensures(old, s, a, result):
+        yield "keeps-the-grid-invariant", GI(s)
+        m = model(old, a)
+        for k in mods:
+            yield f"{k}-is-the-model-value", same_value(k, s.fields[k], getattr(m, k))
+        yield "frame", frame(old, s, *mods)
+        if clauses is not None:
+            yield from clauses(old, s, a, result)
+
+    def effects(old, s, a, result):
+        m = model(old, a)
+        for k in mods:
+            s.fields[k] = materialize(k, old.fields[k], getattr(m, k))
+
+    cls.ensures, cls.effects, cls.ensures_callee = ensures, effects, (lambda old, s, a, result: ())
+    cls.invariant = staticmethod(GI)
+    cls.self_shape = TERM
+    cls.replayable = False
+    cls.independent_posts = True
+    return cls
+
+
+def opt_if(c, v):
+    """`v if c else None` as an optional value."""
+    if isinstance(c, bool):
+        return v if c else None
+    return SOpt(z3.Not(c.e), v)
+
+
+# ---- the reference model
+
+def constrained(s, x, y, ignore_scrolling=False):
+    """Nearest cell to (x, y) inside the screen — inside the scrolling region in origin mode."""
+    top, bot, w, h = s.scrollregion_start, s.scrollregion_end, s.width, s.height
+    cx = ite(x >= w, w - 1, ite(x < 0, 0, x))
+    region = both(s.modes.constrain_scrolling, neg(ignore_scrolling))
+    cy = ite(region, ite(y > bot, bot, ite(y < top, top, y)), ite(y >= h, h - 1, ite(y < 0, 0, y)))
+    return cx, cy
+
+
+def M_set_cursor(s, x, y):
+    """Cursor to the constrained (x, y); it is displayed iff focused, visible and not scrolled out of view."""
+    cx, cy = constrained(s, x, y)
+    shown = both(s.has_focus, s.modes.visible_cursor, s.scrolling_up < s.height - cy)
+    return upd(s, term_cursor=(cx, cy), cursor=opt_if(shown, (cx, cy + s.scrolling_up)))
+
+
+def M_scroll(s, reverse):
+    top, bot = s.scrollregion_start, s.scrollregion_end
+    if reverse:
+        return upd(s, term=mkrows(s.height, lambda r: ite(both(top < r, r <= bot), row(s, r - 1), ite(r == top, blankrow(s), row(s, r)))))
+    return upd(s, term=mkrows(s.height, lambda r: ite(both(top <= r, r < bot), row(s, r + 1), ite(r == bot, blankrow(s), row(s, r)))),
+               scrollback_buffer=SB(dq_append(s.scrollback_buffer.seq, SCROLLBACK_MAX, row(s, top))))
+
+
+def M_blank_line(s, r0):
+    return upd(s, term=mkrows(s.height, lambda r: ite(r == r0, blankrow(s), row(s, r))))
+
+
+def M_put(s, cx, cy, c):
+    return upd(s, term=mkgrid(s, lambda r, x: ite(both(r == cy, x == cx), c, cell(s.term, r, x))))
+
+
+def M_set_char(s, ch, x, y):
+    cx, cy = constrained(s, x, y)
+    return M_put(s, cx, cy, (s.attrspec, s.charset.current, ch))
+
+
+def lf_target(s, y, reverse):
+    """(does the region scroll, the row asked for) of a line feed / reverse line feed from row y: on the
+    margin the region scrolls; on the last (first) screen row outside the region nothing moves."""
+    top, bot, h = s.scrollregion_start, s.scrollregion_end, s.height
+    if reverse:
+        pinned = both(y <= 0, 0 < top)
+        scrolls = both(y == top, neg(pinned))
+        return scrolls, ite(either(pinned, scrolls), y, y - 1)
+    pinned = both(y >= h - 1, h - 1 > bot)
+    scrolls = both(y == bot, neg(pinned))
+    return scrolls, ite(either(pinned, scrolls), y, y + 1)
+
+
+def M_lf(s, reverse):
+    x, y = s.term_cursor
+    scrolls, ny = lf_target(s, y, reverse)
+    s1 = M_scroll(s, reverse) if scrolls else s
+    return M_set_cursor(upd(s1, is_rotten_cursor=False), x, ny)
+
+
+def M_cr(s):
+    return M_set_cursor(upd(s, is_rotten_cursor=False), 0, s.term_cursor[1])
+
+
+def ins_chars(s, x0, y0, c, k):
+    """k copies of cell c inserted at (x0, y0); the rest of the row moves right, the last k cells fall off."""
+    return upd(s, term=mkgrid(s, lambda r, x: ite(both(r == y0, x >= x0), ite(x < x0 + k, c, cell(s.term, r, x - k)), cell(s.term, r, x))))
+
+
+def del_chars(s, x0, y0, k):
+    """k cells removed at (x0, y0); the rest of the row moves left, k blanks enter at the right."""
+    return upd(s, term=mkgrid(s, lambda r, x: ite(both(r == y0, x >= x0), ite(x < s.width - k, cell(s.term, r, x + k), blank(s)), cell(s.term, r, x))))
+
+
+def count_arg(n, room):
+    """A CSI count: 0 means 1; never more than fits."""
+    return imax(0, imin(ite(n == 0, 1, n), room))
+
+
+def M_insert_chars(s, position, chars, ch):
+    x0, y0 = s.term_cursor if position is None else position
+    return ins_chars(s, x0, y0, (s.attrspec, s.charset.current, b" " if ch is None else ch), count_arg(chars, s.width - x0))
+
+
+def M_remove_chars(s, position, chars):
+    x0, y0 = s.term_cursor if position is None else position
+    return del_chars(s, x0, y0, count_arg(chars, s.width - x0))
+
+
+def ins_lines(s, r0, k):
+    """k blank lines inserted at row r0 of the scrolling region: the lines from r0 down move down by k, the last
+    k lines of the region fall off; nothing outside [r0, bottom margin] changes."""
+    bot = s.scrollregion_end
+    return upd(s, term=mkrows(s.height, lambda r: ite(both(r0 <= r, r <= bot), ite(r < r0 + k, blankrow(s), row(s, r - k)), row(s, r))))
+
+
+def del_lines(s, r0, k):
+    """k lines removed at row r0 of the scrolling region: the lines below move up by k, k blank lines enter at
+    the bottom margin."""
+    bot = s.scrollregion_end
+    return upd(s, term=mkrows(s.height, lambda r: ite(both(r0 <= r, r <= bot), ite(r <= bot - k, row(s, r + k), blankrow(s)), row(s, r))))
+
+
+def il_row(s, row_is_none):
+    return s.term_cursor[1] if row_is_none else s.scrollregion_start
+
+
+def M_insert_lines(s, row_is_none, lines):
+    r0 = il_row(s, row_is_none)
+    if not both(s.scrollregion_start <= r0, r0 <= s.scrollregion_end):
+        return s
+    return ins_lines(s, r0, count_arg(lines, s.scrollregion_end - r0 + 1))
+
+
+def M_remove_lines(s, row_is_none, lines):
+    r0 = il_row(s, row_is_none)
+    if not both(s.scrollregion_start <= r0, r0 <= s.scrollregion_end):
+        return s
+    return del_lines(s, r0, count_arg(lines, s.scrollregion_end - r0 + 1))
+
+
+def erase_where(s, pred):
+    return upd(s, term=mkgrid(s, lambda r, x: ite(pred(r, x), blank(s), cell(s.term, r, x))))
+
+
+def erase_range(s, start, end):
+    """The cells from start to end in reading order, both constrained into the screen."""
+    sx, sy = constrained(s, *start)
+    ex, ey = constrained(s, *end)
+    return sx, sy, ex, ey, lambda r, x: either(both(sy == ey, r == sy, sx <= x, x <= ex),
+                                               both(sy < ey, either(both(r == sy, x >= sx), both(sy < r, r < ey), both(r == ey, x <= ex))))
+
+
+def M_erase(s, start, end):
+    return erase_where(s, erase_range(s, start, end)[4])
+
+
+def M_clear(s, cursor):
+    s1 = upd(s, term=mkgrid(s, lambda r, x: blank(s)))
+    return M_set_cursor(s1, *((0, 0) if cursor is None else cursor))
+
+
+def lift_bytes(b):
+    """A byte-string value as an individual of the opaque kind Bytes (Python constants are literals of the kind)."""
+    if isinstance(b, SOpaque):
+        return b
+    return SOpaque("Bytes", z3.Const("Bytes!probe", opaque_sort("Bytes")), {"lit": (bytes,)}).literal(b)
+
+
+def AM(cs, ch):
+    """TermCharset.apply_mapping as a pair of uninterpreted functions of the charset state and the character:
+    (mapped character, charset name afterwards)."""
+    args = [cs.current.e, _zb(cs._sgr_mapping), Q.zint(cs.active), cs._g.e, lift_bytes(ch).e]
+    dom = [t.sort() for t in args]
+    fch = z3.Function("apply_mapping.char", *dom, opaque_sort("Bytes"))
+    fcur = z3.Function("apply_mapping.current", *dom, opaque_sort("CsName"))
+    return SOpaque("Bytes", fch(*args), {"lit": (bytes,)}), SOpaque("CsName", fcur(*args), {})
+
+
+def M_push_char(s, ch, x, y):
+    """Put a character (if any) at the cursor — inserting in insert mode — then move the cursor to (x, y)."""
+    if ch is not None:
+        ch2, cur2 = AM(s.charset, ch)
+        s = upd(s, charset=upd(s.charset, current=cur2))
+        s = M_insert_chars(s, None, 1, ch2) if s.modes.insert else M_set_char(s, ch2, *s.term_cursor)
+    return M_set_cursor(s, x, y)
+
+
+def M_push_cursor(s, ch):
+    """One printable character: write it and advance, with VT100 autowrap (the wrap is deferred until the next
+    character: 'pending wrap')."""
+    x, y = s.term_cursor
+    if s.modes.autowrap:
+        if both(x + 1 >= s.width, neg(s.is_rotten_cursor)):
+            return M_push_char(upd(s, is_rotten_cursor=True), ch, x, y)  # last column: write, stay, wrap pending
+        if both(x + 1 >= s.width, s.is_rotten_cursor):
+            # pending wrap: to column 0 of the next line (scrolling on the bottom margin), write there, advance
+            s1 = M_scroll(s, False) if y == s.scrollregion_end else s
+            ny = ite(y == s.scrollregion_end, y, y + 1)
+            s2 = M_push_char(M_set_cursor(s1, 0, ny), ch, 1, ny)
+            return upd(s2, is_rotten_cursor=False)
+        return upd(M_push_char(s, ch, x + 1, y), is_rotten_cursor=False)
+    return M_push_char(upd(s, is_rotten_cursor=False), ch, ite(x + 1 < s.width, x + 1, x), y)
+
+
+# =================================================================================================
+# statement clauses shared by several operations
+
+
+def scrolled_up(old, s):
+    """The scrolling region moved up one line (what LF does on the bottom margin); the line leaving it is kept."""
+    top, bot, w = old.scrollregion_start, old.scrollregion_end, old.width
+    yield "outside-the-region-unchanged", both(rows_same(old, s, 0, top), rows_same(old, s, bot + 1, old.height))
+    yield "region-moves-up-one", rows_same(old, s, top, bot, shift=1)
+    yield "bottom-of-region-blank", blank_row(s.term, bot, old, w)
+    nb, na = Q.seq_len(old.scrollback_buffer.seq), Q.seq_len(s.scrollback_buffer.seq)
+    yield "line-scrolled-off-is-kept-last-in-scrollback", both(
+        na == imin(nb + 1, SCROLLBACK_MAX), row_eq_seq(Q.seq_get(s.scrollback_buffer.seq, na - 1), old.term, top))
+    drop = na - 1 - nb  # 0, or -1 when the full scroll-back dropped its oldest line
+    yield "earlier-scrollback-kept-in-order", forall(0, na - 1, lambda k: row_eq_seq(Q.seq_get(s.scrollback_buffer.seq, k), old.scrollback_buffer.seq, k - drop))
+
+
+def scrolled_down(old, s):
+    """The scrolling region moved down one line (what RI does on the top margin); nothing enters the scroll-back."""
+    top, bot, w = old.scrollregion_start, old.scrollregion_end, old.width
+    yield "outside-the-region-unchanged", both(rows_same(old, s, 0, top), rows_same(old, s, bot + 1, old.height))
+    yield "region-moves-down-one", rows_same(old, s, top + 1, bot + 1, shift=-1)
+    yield "top-of-region-blank", blank_row(s.term, top, old, w)
+    yield "scrollback-untouched", seq_rows_eq(s.scrollback_buffer.seq, old.scrollback_buffer.seq)
+
+
+def grid_unchanged(old, s):
+    yield "grid-unchanged", both(seq_rows_eq(s.term, old.term), seq_rows_eq(s.scrollback_buffer.seq, old.scrollback_buffer.seq))
+
+
+def cursor_is(s, want):
+    return both(s.term_cursor[0] == want[0], s.term_cursor[1] == want[1])
+
+
+def settled(s):
+    """The cursor is its own constrained cell (always, outside origin mode; inside the region in origin mode)."""
+    return cursor_is(s, constrained(s, *s.term_cursor))
+
+
+def in_grid(s, x, y):
+    return both(0 <= x, x < s.width, 0 <= y, y < s.height)
+
+
+CHAR = CELL.items[2]
+CURSOR_FIELDS = ("term_cursor", "cursor")
+
+# =================================================================================================
+# cursor arithmetic
 
 
 @contract(VT + "TermCanvas.constrain_coords", property="C15")
@@ -25,10 +567,12 @@ class constrain_coords:
     result = Tup(Int, Int)
     invariant = staticmethod(GI)
     replayable = False
-    deterministic = True
+    pure_spec = staticmethod(lambda old, a: constrained(old, a.x, a.y, a.ignore_scrolling))
 
     def ensures(old, s, a, result):
         x, y = result
+        want = constrained(old, a.x, a.y, a.ignore_scrolling)
+        yield "is-the-nearest-cell-function", both(x == want[0], y == want[1])
         yield "inside-the-grid", both(0 <= x, x < old.width, 0 <= y, y < old.height)
         region = both(old.modes.constrain_scrolling, neg(a.ignore_scrolling))
         yield "inside-the-scrolling-region-in-origin-mode", implies(region, both(old.scrollregion_start <= y, y <= old.scrollregion_end))
@@ -36,43 +580,48 @@ class constrain_coords:
                                                        both(x == a.x, y == a.y))
         yield "column-kept-when-inside", implies(both(0 <= a.x, a.x < old.width), x == a.x)
         yield "nearest-cell", both(implies(a.x >= old.width, x == old.width - 1), implies(a.x < 0, x == 0))
+        yield "frame", frame(old, s)
 
 
 @contract(VT + "TermCanvas.set_term_cursor", property="C15")
+@modelled
 class set_term_cursor:
-    self_shape = TERM
     params = dict(x=Opt(Int), y=Opt(Int))
-    modifies = ("term_cursor", "cursor")
-    invariant = staticmethod(GI)
-    replayable = False
+    modifies = CURSOR_FIELDS
 
-    def ensures(old, s, a, result):
+    def model(old, a):
+        return M_set_cursor(old, old.term_cursor[0] if is_none(a.x) else val(a.x), old.term_cursor[1] if is_none(a.y) else val(a.y))
+
+    def clauses(old, s, a, result):
         x, y = s.term_cursor
-        yield "cursor-inside-the-grid", both(0 <= x, x < old.width, 0 <= y, y < old.height)
-        ax = old.term_cursor[0] if is_none(a.x) else val(a.x)
-        ay = old.term_cursor[1] if is_none(a.y) else val(a.y)
-        want = constrain_coords.spec_value(old, x=ax, y=ay, ignore_scrolling=False)
-        yield "is-the-constrained-request", both(x == want[0], y == want[1])
+        yield "cursor-inside-the-grid", in_grid(old, x, y)
         if not is_none(s.cursor):
             cx, cy = val(s.cursor)
-            yield "displayed-cursor-inside-the-canvas", both(0 <= cx, cx < old.width, 0 <= cy, cy < old.height)
+            yield "displayed-cursor-inside-the-canvas", in_grid(old, cx, cy)
             yield "displayed-only-with-focus-and-visible", both(old.has_focus, old.modes.visible_cursor)
 
 
 @contract(VT + "TermCanvas.move_cursor", property="C15")
+@modelled
 class move_cursor:
-    self_shape = TERM
     params = dict(x=Int, y=Int, relative_x=Bool, relative_y=Bool, relative=Bool)
-    invariant = staticmethod(GI)
-    replayable = False
+    modifies = (*CURSOR_FIELDS, "is_rotten_cursor")
 
-    def ensures(old, s, a, result):
+    def model(old, a):
+        ox, oy = old.term_cursor
+        rx, ry = either(a.relative_x, a.relative), either(a.relative_y, a.relative)
+        # absolute rows are relative to the top margin in origin mode
+        ty = ite(ry, a.y + oy, ite(old.modes.constrain_scrolling, a.y + old.scrollregion_start, a.y))
+        return M_set_cursor(upd(old, is_rotten_cursor=False), ite(rx, a.x + ox, a.x), ty)
+
+    def clauses(old, s, a, result):
         x, y = s.term_cursor
-        yield "cursor-inside-the-grid", both(0 <= x, x < old.width, 0 <= y, y < old.height)
+        yield "cursor-inside-the-grid", in_grid(old, x, y)
         yield "wrap-pending-cleared", s.is_rotten_cursor == False  # noqa: E712
         ox, oy = old.term_cursor
         rx = either(a.relative_x, a.relative)
-        yield "column-addressed-or-relative", implies(both(0 <= ite(rx, a.x + ox, a.x), ite(rx, a.x + ox, a.x) < old.width), x == ite(rx, a.x + ox, a.x))
+        tx = ite(rx, a.x + ox, a.x)
+        yield "column-addressed-or-relative", implies(both(0 <= tx, tx < old.width), x == tx)
 
 
 @contract(VT + "TermCanvas.get_utf8_len", property="C15")
@@ -90,3 +639,740 @@ class get_utf8_len:
         yield "at-most-seven-terminates", both(0 <= result, result <= 7)
         yield "lead-byte-lengths", both(implies(both(0xC0 <= b, b <= 0xDF), result == 1), implies(both(0xE0 <= b, b <= 0xEF), result == 2), implies(both(0xF0 <= b, b <= 0xF7), result == 3))
         yield "not-a-lead-byte", implies(b < 0x40, result == 0)
+
+
+@contract(VT + "TermCanvas.reset_scroll", property="C15")
+@modelled
+class reset_scroll:
+    params = dict()
+    modifies = ("scrollregion_start", "scrollregion_end")
+
+    def model(old, a):
+        return upd(old, scrollregion_start=0, scrollregion_end=old.height - 1)
+
+
+@contract(VT + "TermCanvas.csi_set_scroll", property="C15")
+@modelled
+class csi_set_scroll:
+    params = dict(top=Int, bottom=Int)
+    modifies = ("scrollregion_start", "scrollregion_end", *CURSOR_FIELDS)
+
+    def model(old, a):
+        t, b = ite(a.top == 0, 1, a.top), ite(a.bottom == 0, old.height, a.bottom)
+        if both(t < b, b <= old.height):  # DECSTBM: at least two lines, inside the screen; then the cursor goes home
+            return M_set_cursor(upd(old, scrollregion_start=constrained(old, 0, t - 1, True)[1], scrollregion_end=constrained(old, 0, b - 1, True)[1]), 0, 0)
+        return old
+
+    def clauses(old, s, a, result):
+        t, b = ite(a.top == 0, 1, a.top), ite(a.bottom == 0, old.height, a.bottom)
+        valid = both(1 <= t, t < b, b <= old.height)
+        yield "valid-margins-are-taken", implies(valid, both(s.scrollregion_start == t - 1, s.scrollregion_end == b - 1))
+        yield "cursor-home-in-the-new-region", implies(valid, cursor_is(s, (0, ite(old.modes.constrain_scrolling, t - 1, 0))))
+        yield "invalid-margins-are-ignored", implies(neg(both(t < b, b <= old.height)), both(s.scrollregion_start == old.scrollregion_start, s.scrollregion_end == old.scrollregion_end, cursor_is(s, old.term_cursor)))
+
+
+@contract(VT + "TermCanvas.scroll_buffer", property="C15")
+@modelled
+class scroll_buffer:
+    params = dict(up=Bool, reset=Bool, lines=Opt(Int))
+    modifies = ("scrolling_up", *CURSOR_FIELDS)
+
+    def model(old, a):
+        if a.reset:
+            return M_set_cursor(upd(old, scrolling_up=0), *old.term_cursor)
+        n = old.height // 2 if is_none(a.lines) else val(a.lines)
+        want = old.scrolling_up + ite(a.up, n, -n)
+        return M_set_cursor(upd(old, scrolling_up=imax(0, imin(want, Q.seq_len(old.scrollback_buffer.seq)))), *old.term_cursor)
+
+    def clauses(old, s, a, result):
+        yield "view-offset-inside-the-scrollback", both(0 <= s.scrolling_up, s.scrolling_up <= Q.seq_len(old.scrollback_buffer.seq))
+        # (set_term_cursor re-constrains: in origin mode a cursor outside the region is pulled into it)
+        yield "terminal-cursor-not-moved", both(cursor_is(s, constrained(old, *old.term_cursor)), implies(neg(old.modes.constrain_scrolling), cursor_is(s, old.term_cursor)))
+        yield "cursor-hidden-when-scrolled-out-of-view", implies(s.scrolling_up >= old.height - s.term_cursor[1], opt_isnone(s.cursor))
+
+
+def _copy_model(ip, st, f, args, kwargs):
+    """copy.copy on the values stored by save_cursor: an AttrSpec (opaque individual: the copy is an equal
+    value) and the TermCharset object (a new object with equal fields)."""
+    import copy
+
+    if f is copy.copy and len(args) == 1:
+        v = st.force(args[0])
+        if isinstance(v, SOpaque):
+            return v
+        if isinstance(v, Q.SObj):
+            return v.snapshot()
+    return NotImplemented
+
+
+SAVED_ATTRS = Opt(Tup(Opaque("Attr"), CHARSET))
+TERM.fields["saved_attrs"] = SAVED_ATTRS
+FIELDS = tuple(TERM.fields)
+KIND["saved_attrs"] = "saved_attrs"
+_same_value_base = same_value
+
+
+def same_value(k, a, b):  # noqa: F811 - adds the saved (attribute, charset) pair
+    if k == "saved_attrs":
+        na, nb = opt_isnone(a), opt_isnone(b)
+        va, vb = val(a), val(b)
+        if va is None or vb is None:
+            return both(na, nb)
+        return either(both(na, nb), both(neg(na), neg(nb), eq(va[0], vb[0]), _same_value_base("charset", va[1], vb[1])))
+    return _same_value_base(k, a, b)
+
+
+@contract(VT + "TermCanvas.save_cursor", property="C15")
+class save_cursor:
+    self_shape = TERM
+    params = dict(with_attrs=Bool)
+    modifies = ("saved_cursor", "saved_attrs")
+    invariant = staticmethod(GI)
+    replayable = False
+    call_real = _copy_model
+
+    def ensures(old, s, a, result):
+        yield "keeps-the-grid-invariant", GI(s)
+        yield "position-saved", opt_eq(s.saved_cursor, old.term_cursor)
+        if a.with_attrs:
+            yield "attributes-and-charset-saved", both(neg(opt_isnone(s.saved_attrs)), eq(val(s.saved_attrs)[0], old.attrspec), same_value("charset", val(s.saved_attrs)[1], old.charset))
+        else:
+            yield "saved-attributes-untouched", same_value("saved_attrs", s.saved_attrs, old.saved_attrs)
+        yield "frame", frame(old, s, "saved_cursor", "saved_attrs")
+
+
+@contract(VT + "TermCanvas.restore_cursor", property="C15")
+class restore_cursor:
+    self_shape = TERM
+    params = dict(with_attrs=Bool)
+    modifies = (*CURSOR_FIELDS, "attrspec", "charset")
+    invariant = staticmethod(GI)
+    replayable = False
+    call_real = _copy_model
+
+    def ensures(old, s, a, result):
+        yield "keeps-the-grid-invariant", GI(s)
+        if is_none(old.saved_cursor):
+            yield "nothing-saved-nothing-happens", frame(old, s)
+            return
+        m = M_set_cursor(old, *val(old.saved_cursor))
+        yield "cursor-back-at-the-saved-cell", both(cursor_is(s, m.term_cursor), opt_eq(s.cursor, m.cursor))
+        if both(a.with_attrs, neg(opt_isnone(old.saved_attrs))):
+            yield "attributes-and-charset-restored", both(eq(s.attrspec, val(old.saved_attrs)[0]), same_value("charset", s.charset, val(old.saved_attrs)[1]))
+        else:
+            yield "attributes-untouched", both(eq(s.attrspec, old.attrspec), same_value("charset", s.charset, old.charset))
+        yield "frame", frame(old, s, *CURSOR_FIELDS, "attrspec", "charset")
+
+
+@contract(VT + "TermCanvas.is_tabstop", property="C15")
+class is_tabstop:
+    self_shape = TERM
+    params = dict(x=Opt(Int))
+    result = Bool
+    invariant = staticmethod(GI)
+    replayable = False
+    pure_spec = staticmethod(lambda old, a: tabstop_at(old, old.term_cursor[0] if is_none(a.x) else val(a.x)))
+
+    def requires(s, a):
+        return either(opt_isnone(a.x), both(0 <= val(a.x), val(a.x) < s.width))
+
+    def ensures(old, s, a, result):
+        yield "is-the-tab-stop-bit-of-the-column", result == tabstop_at(old, old.term_cursor[0] if is_none(a.x) else val(a.x))
+        yield "frame", frame(old, s)
+
+
+def tabstop_at(s, k):
+    """Column k has a tab stop: bit k % 8 of byte k // 8 of the tab-stop table."""
+    v, m = Q.seq_get(rows_of(s.tabstops), k // 8), k % 8
+    r = (v // 128) % 2 == 1
+    for j in range(6, -1, -1):
+        r = ite(m == j, (v // 2**j) % 2 == 1, r)
+    return r
+
+
+@contract(VT + "TermCanvas.tab", property="C15")
+class tab:
+    self_shape = TERM
+    params = dict(tabstop=Int)
+    modifies = (*CURSOR_FIELDS, "is_rotten_cursor")
+    invariant = staticmethod(GI)
+    replayable = False
+    loops = {0: Loop(invariant=lambda v: both(v.old.self.term_cursor[0] <= v.x, v.x <= v.self.width - 1, v.y == v.old.self.term_cursor[1],
+                                              forall(v.old.self.term_cursor[0] + 1, v.x + 1, lambda k: neg(tabstop_at(v.self, k)))),
+                     decreases=lambda v: v.self.width - 1 - v.x)}
+
+    def ensures(old, s, a, result):
+        yield "keeps-the-grid-invariant", GI(s)
+        x0, y0 = old.term_cursor
+        x, y = s.term_cursor
+        yield "same-row-in-the-grid", both(y == constrained(old, x, y0)[1], implies(neg(old.modes.constrain_scrolling), y == y0))
+        yield "moves-right-unless-at-the-last-column", both(x0 <= x, x <= old.width - 1, implies(x0 < old.width - 1, x0 < x))
+        yield "stops-at-a-tab-stop-or-the-last-column", either(x == old.width - 1, tabstop_at(old, x))
+        yield "no-tab-stop-skipped", forall(x0 + 1, x, lambda k: neg(tabstop_at(old, k)))
+        yield "wrap-pending-cleared", s.is_rotten_cursor == False  # noqa: E712
+        yield "displayed-cursor-follows", opt_eq(s.cursor, M_set_cursor(old, x, y0).cursor)
+        yield "frame", frame(old, s, *CURSOR_FIELDS, "is_rotten_cursor")
+
+
+@contract(VT + "TermCanvas.csi_status_report", property="C15")
+class csi_status_report:
+    self_shape = TERM
+    params = dict(mode=Int)
+    invariant = staticmethod(GI)
+    replayable = False
+
+    def ensures(old, s, a, result):
+        from pyvc.protocol import calls_on
+        from pyvc.values import SFmt
+
+        yield "keeps-the-grid-invariant", GI(s)
+        replies = [ev[3]["string"] for ev in calls_on(cur(), old.widget, "respond")]
+        x, y = old.term_cursor
+        if a.mode == 5:
+            yield "device-status-ok", len(replies) == 1 and replies[0] == "\x1b[0n"
+        elif a.mode == 6:
+            ok = len(replies) == 1 and isinstance(replies[0], SFmt) and len(replies[0].parts) == 5
+            yield "one-cursor-position-report", ok
+            if ok:
+                p = replies[0].parts
+                yield "well-formed-ESC[r;cR", (p[0], p[2], p[4]) == ("\x1b[", ";", "R")
+                yield "row-and-column-are-one-based-and-on-screen", both(p[1] == y + 1, p[3] == x + 1, 1 <= p[1], p[1] <= old.height, 1 <= p[3], p[3] <= old.width)
+        else:
+            yield "other-modes-are-not-answered", len(replies) == 0
+        yield "frame", frame(old, s)
+
+
+# =================================================================================================
+# grid operations
+
+
+@contract(VT + "TermCanvas.blank_line", property="C15")
+@modelled
+class blank_line:
+    params = dict(row=Int)
+    modifies = ("term",)
+    inline = HELPERS
+
+    def requires(s, a):
+        return both(0 <= a.row, a.row < s.height)
+
+    def model(old, a):
+        return M_blank_line(old, a.row)
+
+    def clauses(old, s, a, result):
+        yield "that-row-is-blank", blank_row(s.term, a.row, old, old.width)
+        yield "other-rows-unchanged", both(rows_same(old, s, 0, a.row), rows_same(old, s, a.row + 1, old.height))
+
+
+@contract(VT + "TermCanvas.scroll", property="C15")
+@modelled
+class scroll:
+    params = dict(reverse=Bool)
+    modifies = ("term", "scrollback_buffer")
+    inline = HELPERS
+    static_checks = [_xcheck_deque]  # the deque(maxlen) model against the real collections.deque, on every run
+
+    def model(old, a):
+        return M_scroll(old, bool(a.reverse))
+
+    def clauses(old, s, a, result):
+        yield from (scrolled_down(old, s) if a.reverse else scrolled_up(old, s))
+
+
+@contract(VT + "TermCanvas.set_char", property="C15")
+@modelled
+class set_char:
+    params = dict(char=CHAR, x=Opt(Int), y=Opt(Int))
+    modifies = ("term",)
+
+    def model(old, a):
+        return M_set_char(old, a.char, old.term_cursor[0] if is_none(a.x) else val(a.x), old.term_cursor[1] if is_none(a.y) else val(a.y))
+
+    def clauses(old, s, a, result):
+        ax = old.term_cursor[0] if is_none(a.x) else val(a.x)
+        ay = old.term_cursor[1] if is_none(a.y) else val(a.y)
+        cx, cy = constrained(old, ax, ay)
+        yield "the-cell-holds-the-character-with-current-attributes", cell_eq(cell(s.term, cy, cx), (old.attrspec, old.charset.current, a.char))
+        yield "no-other-cell-changes", forall(0, old.height, lambda r: forall(0, old.width, lambda x: implies(neg(both(r == cy, x == cx)), cell_eq(cell(s.term, r, x), cell(old.term, r, x)))))
+
+
+@contract(VT + "TermCanvas.decaln", property="C15")
+@modelled
+class decaln:
+    params = dict()
+    modifies = ("term",)
+    inline = HELPERS
+    loops = {0: Loop(modifies=("self.term",), invariant=lambda v: seq_rows_eq(
+        v.self.term, mkrows(v.self.height, lambda r: ite(r < v.i_, blankrow(v.self, b"E"), row(v.old.self, r)))))}
+
+    def model(old, a):
+        return upd(old, term=mkgrid(old, lambda r, x: blank(old, b"E")))
+
+    def clauses(old, s, a, result):
+        yield "every-cell-is-E", forall(0, old.height, lambda r: blank_row(s.term, r, old, old.width, b"E"))
+
+
+@contract(VT + "TermCanvas.clear", property="C15")
+@modelled
+class clear:
+    params = dict(cursor=Opt(Tup(Int, Int)))
+    modifies = ("term", *CURSOR_FIELDS)
+    inline = HELPERS
+
+    def model(old, a):
+        return M_clear(old, None if is_none(a.cursor) else val(a.cursor))
+
+    def clauses(old, s, a, result):
+        yield "every-cell-is-blank", forall(0, old.height, lambda r: blank_row(s.term, r, old, old.width))
+        want = (0, 0) if is_none(a.cursor) else val(a.cursor)
+        yield "cursor-home-or-as-asked", cursor_is(s, constrained(old, want[0], want[1]))
+
+
+LF_FIELDS = ("term", "scrollback_buffer", *CURSOR_FIELDS, "is_rotten_cursor")
+
+
+@contract(VT + "TermCanvas.carriage_return", property="C15")
+@modelled
+class carriage_return:
+    params = dict()
+    modifies = (*CURSOR_FIELDS, "is_rotten_cursor")
+
+    def model(old, a):
+        return M_cr(old)
+
+    def clauses(old, s, a, result):
+        x, y = s.term_cursor
+        yield "column-zero", x == 0
+        yield "row-kept-outside-origin-mode", implies(neg(old.modes.constrain_scrolling), y == old.term_cursor[1])
+        yield "wrap-pending-cleared", s.is_rotten_cursor == False  # noqa: E712
+
+
+@contract(VT + "TermCanvas.linefeed", property="C15")
+@modelled
+class linefeed:
+    params = dict(reverse=Bool)
+    modifies = LF_FIELDS
+
+    def model(old, a):
+        return M_lf(old, bool(a.reverse))
+
+    def clauses(old, s, a, result):
+        x, y = old.term_cursor
+        scrolls, ny = lf_target(old, y, bool(a.reverse))
+        yield "cursor-one-line-down-or-up-unless-on-a-margin", cursor_is(s, constrained(old, x, ny))
+        yield "exact-row-outside-origin-mode", implies(neg(old.modes.constrain_scrolling), both(s.term_cursor[0] == x, s.term_cursor[1] == ny))
+        if scrolls:
+            yield from (scrolled_down(old, s) if a.reverse else scrolled_up(old, s))
+        else:
+            yield from grid_unchanged(old, s)
+        yield "wrap-pending-cleared", s.is_rotten_cursor == False  # noqa: E712
+
+
+@contract(VT + "TermCanvas.newline", property="C15")
+@modelled
+class newline:
+    params = dict()
+    modifies = LF_FIELDS
+
+    def model(old, a):
+        return M_lf(M_cr(old), False)
+
+    def clauses(old, s, a, result):
+        y1 = constrained(old, 0, old.term_cursor[1])[1]  # the row after the carriage return
+        scrolls, ny = lf_target(old, y1, False)
+        yield "column-zero-next-line", cursor_is(s, constrained(old, 0, ny))
+        yield "exact-outside-origin-mode", implies(neg(old.modes.constrain_scrolling), both(s.term_cursor[0] == 0, s.term_cursor[1] == ny, y1 == old.term_cursor[1]))
+        if scrolls:
+            yield from scrolled_up(old, s)
+        else:
+            yield from grid_unchanged(old, s)
+        yield "wrap-pending-cleared", s.is_rotten_cursor == False  # noqa: E712
+
+
+def _countdown(left, asked, room):
+    """Loop counter of the insert/remove loops: starts at min(asked or 1, room) and counts down to 0 (a negative
+    start means no iteration)."""
+    start = imin(ite(asked == 0, 1, asked), room)
+    return both(left <= start, either(left >= 0, left == start))
+
+
+def _done(left, asked, room):
+    return count_arg(asked, room) - imax(left, 0)
+
+
+def _pos_ok(s, position):
+    return True if is_none(position) else in_grid(s, *val(position))
+
+
+@contract(VT + "TermCanvas.insert_chars", property="C15")
+@modelled
+class insert_chars:
+    params = dict(position=Opt(Tup(Int, Int)), chars=Int, char=Opt(CHAR))
+    modifies = ("term",)
+    inline = HELPERS
+    loops = {0: Loop(modifies=("self.term",), decreases=lambda v: v.chars, invariant=lambda v: both(
+        _countdown(v.chars, v.old.chars, v.self.width - v.x),
+        seq_rows_eq(v.self.term, ins_chars(v.old.self, v.x, v.y, v.char_spec, _done(v.chars, v.old.chars, v.self.width - v.x)).term)))}
+
+    def requires(s, a):
+        return _pos_ok(s, a.position)
+
+    def model(old, a):
+        return M_insert_chars(old, None if is_none(a.position) else val(a.position), a.chars, None if is_none(a.char) else val(a.char))
+
+    def clauses(old, s, a, result):
+        x0, y0 = old.term_cursor if is_none(a.position) else val(a.position)
+        k = count_arg(a.chars, old.width - x0)
+        c = (old.attrspec, old.charset.current, b" " if is_none(a.char) else val(a.char))
+        yield "left-of-the-position-unchanged", forall(0, x0, lambda x: cell_eq(cell(s.term, y0, x), cell(old.term, y0, x)))
+        yield "the-inserted-cells", forall(x0, x0 + k, lambda x: cell_eq(cell(s.term, y0, x), c))
+        yield "rest-of-the-line-moves-right", forall(x0 + k, old.width, lambda x: cell_eq(cell(s.term, y0, x), cell(old.term, y0, x - k)))
+        yield "other-lines-unchanged", both(rows_same(old, s, 0, y0), rows_same(old, s, y0 + 1, old.height))
+
+
+@contract(VT + "TermCanvas.remove_chars", property="C15")
+@modelled
+class remove_chars:
+    params = dict(position=Opt(Tup(Int, Int)), chars=Int)
+    modifies = ("term",)
+    inline = HELPERS
+    loops = {0: Loop(modifies=("self.term",), decreases=lambda v: v.chars, invariant=lambda v: both(
+        _countdown(v.chars, v.old.chars, v.self.width - v.x),
+        seq_rows_eq(v.self.term, del_chars(v.old.self, v.x, v.y, _done(v.chars, v.old.chars, v.self.width - v.x)).term)))}
+
+    def requires(s, a):
+        return _pos_ok(s, a.position)
+
+    def model(old, a):
+        return M_remove_chars(old, None if is_none(a.position) else val(a.position), a.chars)
+
+    def clauses(old, s, a, result):
+        x0, y0 = old.term_cursor if is_none(a.position) else val(a.position)
+        k = count_arg(a.chars, old.width - x0)
+        yield "left-of-the-position-unchanged", forall(0, x0, lambda x: cell_eq(cell(s.term, y0, x), cell(old.term, y0, x)))
+        yield "rest-of-the-line-moves-left", forall(x0, old.width - k, lambda x: cell_eq(cell(s.term, y0, x), cell(old.term, y0, x + k)))
+        yield "blanks-enter-at-the-right", forall(old.width - k, old.width, lambda x: cell_eq(cell(s.term, y0, x), blank(old)))
+        yield "other-lines-unchanged", both(rows_same(old, s, 0, y0), rows_same(old, s, y0 + 1, old.height))
+
+
+@contract(VT + "TermCanvas.insert_lines", property="C15")
+@modelled
+class insert_lines:
+    params = dict(row=Opt(Int), lines=Int)
+    modifies = ("term",)
+    inline = HELPERS
+    loops = {0: Loop(modifies=("self.term",), decreases=lambda v: v.lines, invariant=lambda v: both(
+        _countdown(v.lines, v.old.lines, v.self.scrollregion_end - v.row + 1),
+        seq_rows_eq(v.self.term, ins_lines(v.old.self, v.row, _done(v.lines, v.old.lines, v.self.scrollregion_end - v.row + 1)).term)))}
+
+    def model(old, a):
+        return M_insert_lines(old, is_none(a.row), a.lines)
+
+    def clauses(old, s, a, result):
+        r0, top, bot = il_row(old, is_none(a.row)), old.scrollregion_start, old.scrollregion_end
+        if not both(top <= r0, r0 <= bot):
+            yield "outside-the-region-ignored", seq_rows_eq(s.term, old.term)
+            return
+        k = count_arg(a.lines, bot - r0 + 1)
+        yield "above-and-below-unchanged", both(rows_same(old, s, 0, r0), rows_same(old, s, bot + 1, old.height))
+        yield "vacated-lines-blank", forall(r0, r0 + k, lambda r: blank_row(s.term, r, old, old.width))
+        yield "lines-move-down", rows_same(old, s, r0 + k, bot + 1, shift=-k)
+
+
+@contract(VT + "TermCanvas.remove_lines", property="C15")
+@modelled
+class remove_lines:
+    params = dict(row=Opt(Int), lines=Int)
+    modifies = ("term",)
+    inline = HELPERS
+    loops = {0: Loop(modifies=("self.term",), decreases=lambda v: v.lines, invariant=lambda v: both(
+        _countdown(v.lines, v.old.lines, v.self.scrollregion_end - v.row + 1),
+        seq_rows_eq(v.self.term, del_lines(v.old.self, v.row, _done(v.lines, v.old.lines, v.self.scrollregion_end - v.row + 1)).term)))}
+
+    def model(old, a):
+        return M_remove_lines(old, is_none(a.row), a.lines)
+
+    def clauses(old, s, a, result):
+        r0, top, bot = il_row(old, is_none(a.row)), old.scrollregion_start, old.scrollregion_end
+        if not both(top <= r0, r0 <= bot):
+            yield "outside-the-region-ignored", seq_rows_eq(s.term, old.term)
+            return
+        k = count_arg(a.lines, bot - r0 + 1)
+        yield "above-and-below-unchanged", both(rows_same(old, s, 0, r0), rows_same(old, s, bot + 1, old.height))
+        yield "lines-move-up", rows_same(old, s, r0, bot + 1 - k, shift=k)
+        yield "blank-lines-enter-at-the-bottom-margin", forall(bot + 1 - k, bot + 1, lambda r: blank_row(s.term, r, old, old.width))
+
+
+def _erase_inv(v, extra):
+    """Loop invariants of erase: the grid is the old one with the cells erased so far blanked."""
+    sx, sy, ex, ey, rng = v.sx, v.sy, v.ex, v.ey, None
+    return seq_rows_eq(v.self.term, erase_where(v.old.self, extra).term)
+
+
+def _multi(v):
+    sx, sy, ex, ey = v.sx, v.sy, v.ex, v.ey
+    return lambda r, x: both(sy < ey, either(both(r == sy, x >= sx), both(sy < r, r < ey), both(r == ey, x <= ex)))
+
+
+@contract(VT + "TermCanvas.erase", property="C15")
+@modelled
+class erase:
+    params = dict(start=Union(Tup(Int, Int), Tup(Int, Int, Bool)), end=Union(Tup(Int, Int), Tup(Int, Int, Bool)))
+    modifies = ("term",)
+    inline = HELPERS
+    loops = {
+        # one row: cells sx .. sx+i-1 done
+        0: Loop(modifies=("self.term",), invariant=lambda v: _erase_inv(v, lambda r, x: both(r == v.sy, v.sx <= x, x < v.sx + v.i_))),
+        # several rows: rows sy .. y-1 done
+        1: Loop(modifies=("self.term",), decreases=lambda v: v.ey + 1 - v.y, invariant=lambda v: both(
+            v.sy <= v.y, v.y <= imax(v.ey + 1, v.sy), _erase_inv(v, lambda r, x: both(r < v.y, _multi(v)(r, x))))),
+        2: Loop(modifies=("self.term",), invariant=lambda v: _erase_inv(v, lambda r, x: either(both(r < v.y, _multi(v)(r, x)), both(r == v.y, v.sx <= x, x < v.sx + v.i_)))),
+        3: Loop(modifies=("self.term",), invariant=lambda v: _erase_inv(v, lambda r, x: either(both(r < v.y, _multi(v)(r, x)), both(r == v.y, x < v.i_)))),
+    }
+
+    def model(old, a):
+        return M_erase(old, a.start, a.end)
+
+    def clauses(old, s, a, result):
+        sx, sy, ex, ey, rng = erase_range(old, a.start, a.end)
+        yield "cells-in-the-range-are-blank", forall(0, old.height, lambda r: forall(0, old.width, lambda x: implies(rng(r, x), cell_eq(cell(s.term, r, x), blank(old)))))
+        yield "cells-outside-the-range-unchanged", forall(0, old.height, lambda r: forall(0, old.width, lambda x: implies(neg(rng(r, x)), cell_eq(cell(s.term, r, x), cell(old.term, r, x)))))
+        yield "the-range-is-start-to-end-in-reading-order", implies(both(sy == ey, sx <= ex), both(rng(sy, sx), rng(sy, ex), neg(rng(sy, ex + 1)), neg(rng(sy, sx - 1))))
+
+
+@contract(VT + "TermCharset.apply_mapping", property=(), assumed=True,
+          notes="charset translation (codecs cp437, str.find on the DEC table: out of the subset). Trusted: returns a byte "
+                "string and may set `current`; both are functions of the charset state and the character (AM); touches nothing else.")
+class apply_mapping:
+    self_shape = CHARSET
+    params = dict(char=CHAR)
+    result = CHAR
+    modifies = ("current",)
+    pure_spec = staticmethod(lambda old, a: AM(old, a.char)[0])
+
+    def effects(old, s, a, result):
+        s.fields["current"] = AM(old, a.char)[1]
+
+
+PUSH_FIELDS = ("term", "scrollback_buffer", *CURSOR_FIELDS, "is_rotten_cursor", "charset")
+
+
+@contract(VT + "TermCanvas.push_char", property="C15")
+@modelled
+class push_char:
+    params = dict(char=Opt(CHAR), x=Int, y=Int)
+    modifies = ("term", *CURSOR_FIELDS, "charset")
+
+    def model(old, a):
+        return M_push_char(old, None if is_none(a.char) else val(a.char), a.x, a.y)
+
+    def clauses(old, s, a, result):
+        x0, y0 = old.term_cursor
+        yield "cursor-at-the-constrained-target", cursor_is(s, constrained(old, a.x, a.y))
+        if is_none(a.char):
+            yield "no-character-no-change", seq_rows_eq(s.term, old.term)
+            return
+        ch2, cur2 = AM(old.charset, val(a.char))
+        # (in origin mode a cursor outside the scrolling region is first pulled into it; the clauses below are
+        # for a cursor that is its own constrained cell; the model clauses cover the other case)
+        if not settled(old):
+            return
+        yield "character-lands-on-the-old-cursor-cell", cell_eq(cell(s.term, y0, x0), (old.attrspec, cur2, ch2))
+        yield "other-lines-unchanged", both(rows_same(old, s, 0, y0), rows_same(old, s, y0 + 1, old.height))
+        yield "left-part-of-the-line-unchanged", forall(0, x0, lambda x: cell_eq(cell(s.term, y0, x), cell(old.term, y0, x)))
+        if old.modes.insert:
+            yield "insert-mode-shifts-the-rest-right", forall(x0 + 1, old.width, lambda x: cell_eq(cell(s.term, y0, x), cell(old.term, y0, x - 1)))
+        else:
+            yield "replace-mode-keeps-the-rest", forall(x0 + 1, old.width, lambda x: cell_eq(cell(s.term, y0, x), cell(old.term, y0, x)))
+
+
+@contract(VT + "TermCanvas.push_cursor", property="C15")
+@modelled
+class push_cursor:
+    params = dict(char=Opt(CHAR))
+    modifies = PUSH_FIELDS
+
+    def model(old, a):
+        return M_push_cursor(old, None if is_none(a.char) else val(a.char))
+
+    def clauses(old, s, a, result):
+        x0, y0 = old.term_cursor
+        w = old.width
+        if not settled(old):
+            return
+        wraps = both(old.modes.autowrap, x0 + 1 >= w, old.is_rotten_cursor)
+        yield "wrap-pending-exactly-after-writing-the-last-column", s.is_rotten_cursor == both(old.modes.autowrap, x0 + 1 >= w, neg(old.is_rotten_cursor))
+        yield "advances-one-column-when-there-is-room", implies(x0 + 1 < w, both(s.term_cursor[0] == x0 + 1, implies(neg(old.modes.constrain_scrolling), s.term_cursor[1] == y0)))
+        yield "stays-in-the-last-column-until-the-next-character", implies(both(x0 + 1 >= w, neg(wraps)), s.term_cursor[0] == x0)
+        if wraps:
+            yield "wrapped-cursor-after-the-first-cell-of-the-next-line", s.term_cursor[0] == imin(1, w - 1)
+            if y0 == old.scrollregion_end:
+                yield "wrap-on-the-bottom-margin-scrolls-the-region", both(rows_same(old, s, 0, old.scrollregion_start), rows_same(old, s, old.scrollregion_start, old.scrollregion_end, shift=1))
+                yield "scrolled-line-goes-to-the-scrollback", Q.seq_len(s.scrollback_buffer.seq) == imin(Q.seq_len(old.scrollback_buffer.seq) + 1, SCROLLBACK_MAX)
+            else:
+                yield "wrap-elsewhere-does-not-scroll", both(seq_rows_eq(s.scrollback_buffer.seq, old.scrollback_buffer.seq), rows_same(old, s, 0, y0),
+                                                              implies(y0 + 1 < old.height, same_row(s.term, y0, old.term, y0, w)))  # (on the last screen row the text continues on that row)
+        else:
+            yield "no-wrap-no-scroll", both(seq_rows_eq(s.scrollback_buffer.seq, old.scrollback_buffer.seq), rows_same(old, s, 0, y0), rows_same(old, s, y0 + 1, old.height))
+            if not is_none(a.char):
+                ch2, cur2 = AM(old.charset, val(a.char))
+                yield "character-lands-on-the-old-cursor-cell", cell_eq(cell(s.term, y0, x0), (old.attrspec, cur2, ch2))
+
+
+# =================================================================================================
+# resize (incl. the exchange of lines with the scroll-back) and the tab-stop table
+
+
+def tab_bytes(w):
+    """Bytes of tab-stop table needed for w columns."""
+    return (w + 7) // 8
+
+
+def mkints(n, f):
+    return Q.SSeq(n, f, Int(0, 255), None, "ints")
+
+
+def extended_tabstops(s, n):
+    """The tab-stop table grown to n bytes (new bytes: a stop in their first column); never shrunk."""
+    old = rows_of(s.tabstops)
+    n0 = Q.seq_len(old)
+    return mkints(imax(n0, n), lambda j: ite(j < n0, Q.seq_get(old, j), 1))
+
+
+def _tabstops_model(old, a):
+    n = tab_bytes(old.width)
+    return extended_tabstops(old, n) if a.extend else mkints(n, lambda j: 1)
+
+
+@contract(VT + "TermCanvas.init_tabstops", property="C15")
+class init_tabstops:
+    self_shape = TERM
+    params = dict(extend=Bool)
+    modifies = ("tabstops",)
+    replayable = False
+    independent_posts = True
+    loops = {0: Loop(modifies=("self.tabstops",), decreases=lambda v: v.tablen - Q.seq_len(rows_of(v.self.tabstops)), invariant=lambda v: both(
+        v.tablen == tab_bytes(v.self.width), Q.seq_len(rows_of(v.self.tabstops)) <= imax(Q.seq_len(rows_of(v.old.self.tabstops)), v.tablen),
+        same_value("tabstops", v.self.tabstops, extended_tabstops(v.old.self, Q.seq_len(rows_of(v.self.tabstops))))))}
+
+    def requires(s, a):
+        return s.width >= 1
+
+    def ensures(old, s, a, result):
+        yield "a-byte-for-every-column", Q.seq_len(rows_of(s.tabstops)) * 8 >= old.width
+        yield "tabstops-is-the-model-value", same_value("tabstops", s.tabstops, _tabstops_model(old, a))
+        yield "frame", frame(old, s, "tabstops")
+
+    def effects(old, s, a, result):
+        s.fields["tabstops"] = Q.LRef(_tabstops_model(old, a))
+
+    ensures_callee = staticmethod(lambda old, s, a, result: ())
+
+
+def fit_row(s, rw, w):
+    """A row brought to width w: cut, or padded with blank cells."""
+    return mkrow(w, lambda x: ite(x < Q.seq_len(rw), Q.seq_get(rw, x), blank(s)))
+
+
+def width_adjusted(s, w, upto=None):
+    """The grid with rows [0, upto) (all rows if None) brought to width w."""
+    return mkrows(s.height, lambda r: fit_row(s, row(s, r), w) if upto is None else ite(r < upto, fit_row(s, row(s, r), w), row(s, r)))
+
+
+def grown(s, w, i):
+    """Height grown by i lines at width w: as many lines as the scroll-back has (at most i) come back on top, most
+    recent lowest, cut/padded to the width; the remaining new lines are blank lines at the bottom.
+    -> (rows, scroll-back content, number of blank lines added)"""
+    sbq = s.scrollback_buffer.seq
+    n, h0 = Q.seq_len(sbq), s.height
+    p = imin(i, n)
+    base = width_adjusted(s, w)
+    blank_w = mkrow(w, lambda x: blank(s))
+    rows = mkrows(h0 + i, lambda r: ite(r < p, fit_row(s, Q.seq_get(sbq, n - p + r), w), ite(r < p + h0, Q.seq_get(base, r - p), blank_w)))
+    return rows, Q.seq_slice1(sbq, 0, n - p), i - p
+
+
+def shrunk(s, w, i):
+    """Height shrunk by i lines at width w: the top i lines go to the scroll-back, oldest first (the scroll-back
+    keeps its most recent SCROLLBACK_MAX lines).  -> (rows, scroll-back content)"""
+    sbq = s.scrollback_buffer.seq
+    n, h0 = Q.seq_len(sbq), s.height
+    base = width_adjusted(s, w)
+    drop = imax(0, n + i - SCROLLBACK_MAX)
+    sb = mkrows(imin(n + i, SCROLLBACK_MAX), lambda j: ite(j + drop < n, Q.seq_get(sbq, j + drop), Q.seq_get(base, j + drop - n)))
+    return mkrows(h0 - i, lambda r: Q.seq_get(base, r + i)), sb
+
+
+def M_resize(s, w, h):
+    if h > s.height:
+        rows, sb, _ = grown(s, w, h - s.height)
+    elif h < s.height:
+        rows, sb = shrunk(s, w, s.height - h)
+    else:
+        rows, sb = width_adjusted(s, w), s.scrollback_buffer.seq
+    s1 = upd(s, width=w, height=h, term=rows, scrollback_buffer=SB(sb), scrolling_up=imin(s.scrolling_up, Q.seq_len(sb)),
+             scrollregion_start=0, scrollregion_end=h - 1)
+    s2 = M_set_cursor(s1, *s.term_cursor)  # the cursor stays on its cell where that still exists
+    return upd(s2, tabstops=extended_tabstops(s, tab_bytes(w)))
+
+
+def _w_inv(v):
+    return seq_rows_eq(v.self.term, width_adjusted(v.old.self, v.width, upto=v.i_))
+
+
+def _grow_inv(v):
+    rows, sb, blanks = grown(v.old.self, v.width, v.i_)
+    return both(seq_rows_eq(v.self.term, rows), seq_rows_eq(v.self.scrollback_buffer.seq, sb), v.self.scrollregion_end == v.old.self.scrollregion_end + blanks)
+
+
+def _shrink_inv(v):
+    rows, sb = shrunk(v.old.self, v.width, v.i_)
+    return both(seq_rows_eq(v.self.term, rows), seq_rows_eq(v.self.scrollback_buffer.seq, sb))
+
+
+RESIZE_FIELDS = ("width", "height", "term", "scrollback_buffer", "scrolling_up", "scrollregion_start", "scrollregion_end", *CURSOR_FIELDS, "tabstops")
+
+
+@contract(VT + "TermCanvas.resize", property="C15")
+@modelled
+class resize:
+    params = dict(width=Int, height=Int)
+    modifies = RESIZE_FIELDS
+    inline = HELPERS
+    loops = {
+        0: Loop(modifies=("self.term",), invariant=_w_inv),
+        1: Loop(modifies=("self.term",), invariant=_w_inv),
+        2: Loop(modifies=("self.term", "self.scrollback_buffer", "self.scrollregion_end"), invariant=_grow_inv),
+        3: Loop(modifies=("self.term", "self.scrollback_buffer"), invariant=_shrink_inv),
+    }
+
+    def requires(s, a):
+        return both(a.width >= 1, a.height >= 1)
+
+    def model(old, a):
+        return M_resize(old, a.width, a.height)
+
+    def clauses(old, s, a, result):
+        w, h, h0 = a.width, a.height, old.height
+        n0, n1 = Q.seq_len(old.scrollback_buffer.seq), Q.seq_len(s.scrollback_buffer.seq)
+        yield "new-size", both(s.width == w, s.height == h)
+        yield "scrolling-region-is-the-whole-screen", both(s.scrollregion_start == 0, s.scrollregion_end == h - 1)
+        yield "view-offset-stays-inside-the-scrollback", both(0 <= s.scrolling_up, s.scrolling_up <= n1, s.scrolling_up <= old.scrolling_up)
+        keep = imin(old.width, w)
+        if h < h0:
+            d = h0 - h
+            yield "remaining-lines-keep-their-cells", forall(0, h, lambda r: forall(0, keep, lambda x: cell_eq(cell(s.term, r, x), cell(old.term, r + d, x))))
+            yield "lines-leave-from-the-top-in-order-into-the-scrollback", both(n1 == imin(n0 + d, SCROLLBACK_MAX), forall(imax(0, d - SCROLLBACK_MAX), d, lambda j: forall(0, keep, lambda x: cell_eq(
+                Q.seq_get(Q.seq_get(s.scrollback_buffer.seq, n1 - d + j), x), cell(old.term, j, x)))))
+        elif h > h0:
+            k = imin(h - h0, n0)
+            yield "lines-return-from-the-scrollback-most-recent-lowest", both(n1 == n0 - k, forall(0, k, lambda r: forall(0, imin(w, Q.seq_len(Q.seq_get(old.scrollback_buffer.seq, n0 - k + r))), lambda x: cell_eq(
+                cell(s.term, r, x), Q.seq_get(Q.seq_get(old.scrollback_buffer.seq, n0 - k + r), x)))))
+            yield "old-lines-follow", forall(0, h0, lambda r: forall(0, keep, lambda x: cell_eq(cell(s.term, r + k, x), cell(old.term, r, x))))
+            yield "then-blank-lines", forall(k + h0, h, lambda r: blank_row(s.term, r, old, w))
+        else:
+            yield "lines-keep-their-cells", forall(0, h, lambda r: forall(0, keep, lambda x: cell_eq(cell(s.term, r, x), cell(old.term, r, x))))
+        yield "new-columns-are-blank", implies(h <= h0, forall(0, h, lambda r: forall(old.width, w, lambda x: cell_eq(cell(s.term, r, x), blank(old)))))
+        # FAILS-ON-TREE: TermCanvas(4, 5), cursor (1, 1), resize(6, 5) -> cursor (1, 4): the loops `for y in range(self.height)`
+        # that adjust the width overwrite the saved cursor row `y`, so any change of width sends the cursor to the last row
+        yield "cursor-stays-on-its-cell-where-it-still-exists", cursor_is(s, (imin(old.term_cursor[0], w - 1), imin(old.term_cursor[1], h - 1)))
